@@ -401,6 +401,15 @@ func NewBatch(prop, tier string, seed uint64) *Batch {
 				b.Fixed = append(b.Fixed, wholeLife(fr, stubLife[i], hf, true, viaUnitAbove))
 			}
 		}
+		// multi-byte index boundaries (2^8, 2^16): signatures on both sides
+		for ci, cb := range []struct {
+			h   uint8
+			idx uint32
+		}{{18, 1<<16 - 1}, {10, 1<<8 - 1}} {
+			ep := &Episode{Kind: "xmss", Profile: "c01-index-bytes", Height: cb.h, Hash: uint8((int(seed) + ci) % 3), Stub: true, SeedHex: seedHex(fr), Twin: "none", Drain: "none"}
+			ep.Ops = []Op{{K: "jump", J: cb.idx - 1}, signOp(fr, false), signOp(fr, false), signOp(fr, false), signOp(fr, false), {K: "jump", J: 3 * (cb.idx + 1)}, signOp(fr, false), signOp(fr, false)}
+			b.Fixed = append(b.Fixed, ep)
+		}
 		// real keys of greater height: a few signatures each (key generation dominates)
 		spot := []uint8{12}
 		if thorough {
